@@ -42,96 +42,96 @@ fn plan_for(property: &str) -> Option<Plan> {
     "C16" => Plan {
       engine: "world",
       level: "exploration",
-      quick_runs: 4_000,
-      thorough_runs: 400_000,
+      quick_runs: 40_000,
+      thorough_runs: 4_000_000,
       params_quick: &[],
       params_thorough: &[],
     },
     "C20" => Plan {
       engine: "res",
       level: "exploration",
-      quick_runs: 400_000,
-      thorough_runs: 40_000_000,
+      quick_runs: 2_000_000,
+      thorough_runs: 200_000_000,
       params_quick: &[("max_list", 8)],
       params_thorough: &[("max_list", 8)],
     },
     "C09" => Plan {
       engine: "stor",
       level: "fault_enumeration",
-      quick_runs: 30_000,
-      thorough_runs: 3_000_000,
+      quick_runs: 100_000,
+      thorough_runs: 6_000_000,
       params_quick: &[("max_ops", 12)],
       params_thorough: &[("max_ops", 12)],
     },
     "C01" => Plan {
       engine: "world",
       level: "exploration",
-      quick_runs: 6_000,
-      thorough_runs: 600_000,
+      quick_runs: 40_000,
+      thorough_runs: 3_000_000,
       params_quick: &[],
       params_thorough: &[],
     },
     "C08" => Plan {
       engine: "world",
       level: "exploration",
-      quick_runs: 6_000,
-      thorough_runs: 600_000,
+      quick_runs: 40_000,
+      thorough_runs: 3_000_000,
       params_quick: &[],
       params_thorough: &[],
     },
     "C02" => Plan {
       engine: "world",
       level: "exploration",
-      quick_runs: 4_000,
-      thorough_runs: 500_000,
+      quick_runs: 40_000,
+      thorough_runs: 3_000_000,
       params_quick: &[],
       params_thorough: &[],
     },
     "C03" => Plan {
       engine: "world",
       level: "exploration",
-      quick_runs: 4_000,
-      thorough_runs: 500_000,
+      quick_runs: 40_000,
+      thorough_runs: 3_000_000,
       params_quick: &[],
       params_thorough: &[],
     },
     "C04" => Plan {
       engine: "stor",
       level: "exploration",
-      quick_runs: 30_000,
-      thorough_runs: 3_000_000,
+      quick_runs: 100_000,
+      thorough_runs: 6_000_000,
       params_quick: &[("max_ops", 12)],
       params_thorough: &[("max_ops", 12)],
     },
     "C06" => Plan {
       engine: "world",
       level: "exploration",
-      quick_runs: 6_000,
-      thorough_runs: 600_000,
+      quick_runs: 30_000,
+      thorough_runs: 1_500_000,
       params_quick: &[("max_batch", 1000)],
       params_thorough: &[("max_batch", 100000)],
     },
     "C12" => Plan {
       engine: "world",
       level: "exploration",
-      quick_runs: 3_000,
-      thorough_runs: 300_000,
+      quick_runs: 10_000,
+      thorough_runs: 600_000,
       params_quick: &[],
       params_thorough: &[],
     },
     "C14" => Plan {
       engine: "world",
       level: "exploration",
-      quick_runs: 20_000,
-      thorough_runs: 2_000_000,
+      quick_runs: 60_000,
+      thorough_runs: 6_000_000,
       params_quick: &[],
       params_thorough: &[],
     },
     "C15" => Plan {
       engine: "ks",
       level: "exploration",
-      quick_runs: 150_000,
-      thorough_runs: 20_000_000,
+      quick_runs: 600_000,
+      thorough_runs: 40_000_000,
       params_quick: &[("max_clients", 16)],
       params_thorough: &[("max_clients", 16)],
     },
